@@ -295,9 +295,34 @@ def arithExpected (N : Nat) (a : Arith) (old : Nat) (arg : Int) : Nat := (arithS
 def expectGets (obs : String) (expected : List Nat) : Option String :=
   if commaNats obs = some expected then none else some "channel-read"
 
+def judgeDop (W N len ptr first o argS buf bufS getS auxS : String) : String :=
+  match nats [W, N, len, ptr, first], nats [getS, auxS] with
+  | some [_, N, len, ptr, first], some [got, aux] =>
+    let arg : Int := argS.toInt?.getD 0
+    let M := memOfHex buf; let M' := memOfHex bufS
+    let lo := 8 * ptr + first
+    let old := bitsAt M lo N
+    if bufS.length ≠ 2 * len then fail "shape" else
+    if got ≠ bitsAt M' lo N then fail "get" else
+    let r := match o with
+      | "set" => writeSpec M M' lo N arg.toNat
+      | "setr" | "setc" => match colonPair argS with
+        | some (p2, f2) => writeSpec M M' lo N (bitsAt M (8 * p2 + f2) N)
+        | none => some "bad-op"
+      | "swp" => match colonPair argS with
+        | some (p2, f2) => writesSpec M M' [(lo, N, bitsAt M (8 * p2 + f2) N), (8 * p2 + f2, N, old)]
+        | none => some "bad-op"
+      | "swv" => orElse (writeSpec M M' lo N arg.toNat) (fun _ => if aux ≠ old then some "swap-value" else none)
+      | "get" => if M' = M then none else some "frame-bits"
+      | _ => match parseArith o with
+        | some a => writeSpec M M' lo N (arithExpected N a old arg)
+        | none => some "bad-op"
+    verdict r
+  | _, _ => fail "shape"
+
 def judge (op obs : String) : String :=
   if obs.startsWith "ub:" ∨ obs.startsWith "assert:" ∨ obs.startsWith "crash" ∨ obs.startsWith "timeout" then
-    (if (words op).head? = some "xdop" then "ok" else fail ("memory-safety " ++ (obs.take 60).toString)) else
+    fail ("memory-safety " ++ (obs.take 60).toString) else
   match words op, words obs with
   | ["ssweep", W, F, N, c0, cnt, v0, vs], ows =>
     match nats [W, F, N, c0, cnt, v0, vs], splitBar ows with
@@ -343,31 +368,9 @@ def judge (op obs : String) : String :=
         let M' := memSlice ab (i * 2 * len) len
         (orElse (writeSpec M M' lo N v) (fun _ => if hexSlice bb (i * dn) dn ≠ v then some "get" else none)).map (· ++ s!" i={i}"))) none)
     | _, _ => fail "shape"
-  | ["xdop", _, _, _, _, _, _, _, _], _ => "ok"      -- outside the property's quantifier: correspondence only
-  | ["dop", W, N, len, ptr, first, o, argS, buf], [bufS, getS, auxS] =>
-    match nats [W, N, len, ptr, first], nats [getS, auxS] with
-    | some [_, N, len, ptr, first], some [got, aux] =>
-      let arg : Int := argS.toInt?.getD 0
-      let M := memOfHex buf; let M' := memOfHex bufS
-      let lo := 8 * ptr + first
-      let old := bitsAt M lo N
-      if bufS.length ≠ 2 * len then fail "shape" else
-      if got ≠ bitsAt M' lo N then fail "get" else
-      let r := match o with
-        | "set" => writeSpec M M' lo N arg.toNat
-        | "setr" | "setc" => match colonPair argS with
-          | some (p2, f2) => writeSpec M M' lo N (bitsAt M (8 * p2 + f2) N)
-          | none => some "bad-op"
-        | "swp" => match colonPair argS with
-          | some (p2, f2) => writesSpec M M' [(lo, N, bitsAt M (8 * p2 + f2) N), (8 * p2 + f2, N, old)]
-          | none => some "bad-op"
-        | "swv" => orElse (writeSpec M M' lo N arg.toNat) (fun _ => if aux ≠ old then some "swap-value" else none)
-        | "get" => if M' = M then none else some "frame-bits"
-        | _ => match parseArith o with
-          | some a => writeSpec M M' lo N (arithExpected N a old arg)
-          | none => some "bad-op"
-      verdict r
-    | _, _ => fail "shape"
+  | ["dop", W, N, len, ptr, first, o, argS, buf], [bufS, getS, auxS] => judgeDop W N len ptr first o argS buf bufS getS auxS
+  -- channels of 24 / 32 bits in a 64-bit field (judged since fix 69c04b8)
+  | ["xdop", W, N, len, ptr, first, o, argS, buf], [bufS, getS, auxS] => judgeDop W N len ptr first o argS buf bufS getS auxS
   | ["pval", N, v], [a, b, c] =>
     match N.toNat?, v.toInt?, nats [a, b, c] with
     | some N, some v, some [a, b, c] =>
